@@ -153,6 +153,40 @@ Definition stmt_keyword (s : stmt) : str :=
   | SPrint _ _ => k_print ++ [32] | SIf _ _ => k_if | SFor _ _ _ _ _ => k_for
   end.
 
+(* ------------------------------------------------------------------------------------ identifiers of a header *)
+(* the identifiers of an expression / statement header (what is PRINTED: not the nested blocks) *)
+Fixpoint expr_names (e : expr) : list ident :=
+  match e with
+  | EList es | ESet es => flat_map expr_names es
+  | EListComp el v _ value _ | ESetComp el v _ value _ => expr_names el ++ [v] ++ expr_names value
+  | ECapture name _ _ _ _ => [name]
+  | EUnscoped name _ => [name]
+  | EScoped scope name _ => expr_names scope ++ [name]
+  | ECall f args => f :: flat_map expr_names args
+  | _ => []
+  end.
+Definition variable_names (v : variable) : list ident :=
+  match v with VarU name _ => [name] | VarS scope name _ => expr_names scope ++ [name] end.
+Definition attr_names (a : attr) : list ident := match a with Attr name value => name :: expr_names value end.
+Definition cond_names (c : cond) : list ident := match c with CSome e _ | CNone e _ | CBool e _ => expr_names e end.
+Definition stmt_names (s : stmt) : list ident :=
+  match s with
+  | SLet v e _ | SVar v e _ | SSet v e _ => variable_names v ++ expr_names e
+  | SNode v _ _ => variable_names v
+  | SAttrNode n attrs _ => expr_names n ++ flat_map attr_names attrs
+  | SEdge a b _ => expr_names a ++ expr_names b
+  | SAttrEdge a b attrs _ => expr_names a ++ expr_names b ++ flat_map attr_names attrs
+  | SScan v _ _ => expr_names v
+  | SPrint vs _ => flat_map expr_names vs
+  | SIf arms _ => flat_map (fun arm : list cond * list stmt * loc => flat_map cond_names (fst (fst arm))) arms
+  | SFor v _ e _ _ => v :: expr_names e
+  end.
+
+(* no control character (in particular no line break) in any identifier printed by display_stmt: the hypothesis of
+   display_stmt_single_line_partial, as a boolean (checked on every parsed file by stream C20d) *)
+Definition clean_strb (t : str) : bool := forallb (fun c => 32 <=? c) t.
+Definition stmt_names_cleanb (s : stmt) : bool := forallb clean_strb (stmt_names s).
+
 (* ------------------------------------------------------------------------------------ statements of a file by location *)
 (* all statements below s (any depth), preorder; the same traversal as Proofs/ErrorCtxValid.v `stmt_subs` *)
 Fixpoint substmts (s : stmt) : list stmt :=
